@@ -254,6 +254,14 @@ func runC13(c *Ctx) {
 			c.CheckGuard("C13.G1", v.key+":context-refused", f, nil, cmpReject("len(context) != 0 rejected", token.NEQ, func(s string) bool { return strings.HasPrefix(s, "len(") && strings.Contains(s, ").Context(") }, pathIs("0")))
 		}
 	}
+	// well-formed JWK (where one is required): kty present; RSA needs n and e; other key types need crv and x
+	if jv := c.Method("document", "JWK", "Validate"); jv != nil {
+		c.jwkValidateRules("C13.G1", "document.JWK.Validate", jv, func(m string) pathPred {
+			return func(s string) bool { return s == "(document.JWK)."+m+"($0)" }
+		})
+	} else {
+		c.Unresolved("C13.G1", "(document.JWK).Validate")
+	}
 	c.Min("C13.G1", 60)
 	c.Min("C13.K1", 1)
 	c.Assume("net/url.ParseRequestURI / url.Parse decide URI validity; the 'if' direction (every conforming patch is accepted) is not decided")
@@ -484,4 +492,17 @@ func elemOfP(list pathPred) pathPred {
 func lenP(p pathPred) pathPred { return wrapP("len", p) }
 func sufP(p pathPred, suf string) pathPred {
 	return func(s string) bool { return strings.HasSuffix(s, suf) && p(s[:len(s)-len(suf)]) }
+}
+
+// jwkValidateRules: Validate rejects a missing kty; for kty RSA a missing n or e; otherwise a missing crv or x.
+func (c *Ctx) jwkValidateRules(rule, key string, f *ssa.Function, member func(string) pathPred) {
+	c.CheckGuard(rule, key+":kty-required", f, nil, cmpReject(`kty == "" rejected`, token.EQL, member("Kty"), pathIs(`""`)))
+	isRSA := cmpReject(`kty == "RSA"`, token.EQL, member("Kty"), pathIs(`"RSA"`))   // success edge: kty != RSA
+	notRSA := cmpAccept(`kty == "RSA"`, token.EQL, member("Kty"), pathIs(`"RSA"`)) // success edge: kty == RSA
+	for _, m := range []string{"N", "E"} {
+		c.CheckGuard(rule, key+":rsa-"+strings.ToLower(m)+"-required", f, nil, anyOf("not RSA, or "+m+" present", isRSA, cmpReject(m+` == "" rejected`, token.EQL, member(m), pathIs(`""`))))
+	}
+	for _, m := range []string{"Crv", "X"} {
+		c.CheckGuard(rule, key+":"+strings.ToLower(m)+"-required-unless-rsa", f, nil, anyOf("RSA, or "+m+" present", notRSA, cmpReject(m+` == "" rejected`, token.EQL, member(m), pathIs(`""`))))
+	}
 }
